@@ -561,53 +561,8 @@ class MacroProgram(ElementProgram):
             TARGET,
         )
 
-        # metal:fill-slot
-        try:
-            clause = ns[METAL, 'fill-slot']
-        except KeyError:
-            pass
-        else:
-            if not clause.strip():
-                raise LanguageError(
-                    "Must provide a non-trivial string for metal:fill-slot.",
-                    clause
-                )
-
-            index = -(1 + int(bool(use_macro or extend_macro)))
-
-            try:
-                slots = self._use_macro[index]
-            except IndexError:
-                raise LanguageError(
-                    "Cannot use metal:fill-slot without metal:use-macro.",
-                    clause
-                )
-
-            slots = self._use_macro[index]
-            slots.append(nodes.FillSlot(clause, slot))
-
-        # metal:define-macro
-        try:
-            clause = ns[METAL, 'define-macro']
-        except KeyError:
-            pass
-        else:
-            if ns.get((METAL, 'fill-slot')) is not None:
-                raise LanguageError(
-                    "Can't have 'fill-slot' and 'define-macro' "
-                    "on the same element.",
-                    clause
-                )
-
-            self._macros[clause] = slot
-            slot = nodes.UseInternalMacro(clause)
-
-        slot = wrap(
-            slot,
-            NAME
-        )
-
-        # tal:on-error
+        # tal:on-error (it guards the element also where it is rendered as
+        # a slot filler, or as a macro used from elsewhere)
         try:
             clause = ns[TAL, 'on-error']
         except KeyError:
@@ -652,6 +607,53 @@ class MacroProgram(ElementProgram):
                 )
 
             ON_ERROR = partial(nodes.OnError, fallback, 'error')
+
+        # metal:fill-slot
+        try:
+            clause = ns[METAL, 'fill-slot']
+        except KeyError:
+            pass
+        else:
+            if not clause.strip():
+                raise LanguageError(
+                    "Must provide a non-trivial string for metal:fill-slot.",
+                    clause
+                )
+
+            index = -(1 + int(bool(use_macro or extend_macro)))
+
+            try:
+                slots = self._use_macro[index]
+            except IndexError:
+                raise LanguageError(
+                    "Cannot use metal:fill-slot without metal:use-macro.",
+                    clause
+                )
+
+            slots = self._use_macro[index]
+            slots.append(nodes.FillSlot(clause, wrap(slot, ON_ERROR)))
+
+        # metal:define-macro
+        try:
+            clause = ns[METAL, 'define-macro']
+        except KeyError:
+            pass
+        else:
+            if ns.get((METAL, 'fill-slot')) is not None:
+                raise LanguageError(
+                    "Can't have 'fill-slot' and 'define-macro' "
+                    "on the same element.",
+                    clause
+                )
+
+            self._macros[clause] = wrap(slot, ON_ERROR)
+            slot = nodes.UseInternalMacro(clause)
+            ON_ERROR = skip
+
+        slot = wrap(
+            slot,
+            NAME
+        )
 
         clause = ns.get((META, 'interpolation'))
         if clause in ('false', 'off'):
